@@ -1,6 +1,10 @@
 import PyTRS.Rx
 import PyTRS.PyStr
 import PyTRS.Gen.Patterns
+import PyTRS.Model.Aliquot
+import PyTRS.Model.Unpack
+import PyTRS.Model.Tract
+import PyTRS.Model.TRS
 open PyTRS
 namespace Driver
 
@@ -36,7 +40,68 @@ def renderMatch (ng : Nat) (m : Match) : String :=
     | none => "-1:-1")
   ";".intercalate (s!"{m.start}:{m.stop}" :: gs)
 
+def decOptInt (f : String) : Option Int := if f == "~" then none else f.toInt?
+def decInt (f : String) : Int := f.toInt?.getD 0
+
+def decArg (f : String) : TRS.Arg :=
+  if f == "~" then .none
+  else if f.startsWith "i" then .int ((f.drop 1).toString.toInt?.getD 0)
+  else .str (decText (f.drop 1).toString)
+
+def depthArgs (mn mx d bh : String) : Aliquot.DepthArgs :=
+  { qqMin := decInt mn, qqMax := decOptInt mx, qqDepth := decOptInt d, breakHalves := decBool bh }
+
+def dictPy (d : List (Str × Str)) : PyVal := .dict (d.map (fun kv => (.str kv.1, .str kv.2)))
+
+def flagsPy (f : Tract.Flags) : List (PyVal × PyVal) :=
+  [(.str "w_flags".toList, .list f.w), (.str "w_flag_lines".toList, .list f.wl),
+   (.str "e_flags".toList, .list f.e), (.str "e_flag_lines".toList, .list f.el)]
+
+def handleModel (fs : List String) : Option String :=
+  match fs with
+  | ["aliquot.parse", t, mn, mx, d, bh] =>
+    some (match Aliquot.parseAliquot (decText t) (depthArgs mn mx d bh) with
+      | some l => (PyVal.strs l).render
+      | none => "?diverged")
+  | ["aliquot.std", t] =>
+    some (match Aliquot.standardize ((decText t |> pySplitChar ',') |>.filter (· != [])) with
+      | some l => (PyVal.strs l).render
+      | none => "?diverged")
+  | ["sec.unpack", t] =>
+    let r := Unpack.unpackSections (decText t)
+    some (if r.diverged then "?diverged" else (PyVal.tup [.strs r.secList, .list r.flags, .list r.flagLines]).render)
+  | ["lot.unpack", t] =>
+    let r := Unpack.unpackLots (decText t)
+    some (if r.diverged then "?diverged" else
+      (PyVal.tup [.strs r.lotList, dictPy r.lotAcres, .list r.flags, .list r.flagLines, .int r.aliquotsThrough]).render)
+  | ["tract.pp", t, c] =>
+    some (match Tract.scrubAliquots (decText t) (decBool c) with
+      | some r => (PyVal.str r).render
+      | none => "?diverged")
+  | ["tract.parse", t, c, sup, mn, mx, d, bh] =>
+    some (match Tract.tractParse (decText t) { cleanQQ := decBool c, suppressLotDivs := decBool sup, depth := depthArgs mn mx d bh } {} with
+      | .error e => "!" ++ e.name
+      | .ok r =>
+        if r.diverged then "?diverged" else
+        let il := match Tract.ilots r.lots with
+          | .ok l => PyVal.list (l.map .int)
+          | .error e => .str ("!" ++ e.name).toList
+        (PyVal.dict ([(.str "pp_desc".toList, .str r.text), (.str "lots".toList, .strs r.lots),
+          (.str "qqs".toList, .strs r.qqs), (.str "lot_acres".toList, dictPy r.lotAcres),
+          (.str "aliquots_whole".toList, .strs r.aliquotsWhole), (.str "ilots".toList, il)] ++ flagsPy r.flags)).render)
+  | ["trs.to_dict", t] => some (TRS.trsToDict (decOpt t)).toPy.render
+  | ["trs.construct", a, b, c, ns, ew, ocr] =>
+    some (match TRS.constructTrs (decArg a) (decArg b) (decArg c) (decText ns) (decText ew) (decBool ocr) with
+      | .ok s => (PyVal.str s).render
+      | .error e => "!" ++ e.name)
+  | ["twprge.short", t] => some (PyVal.str (Unpack.twprgeNaturalToShort (decText t))).render
+  | ["twprge.natural", t] => some (PyVal.str (Unpack.twprgeShortToNatural (decText t))).render
+  | _ => none
+
 def handle (fs : List String) : String :=
+  match handleModel fs with
+  | some r => r
+  | none =>
   match fs with
   | ["search", p, t, pos, endpos] =>
     match findPat p with
